@@ -243,11 +243,14 @@ def p_moveaxis(rng: Any) -> tuple[str, list[Any]]:
     return 'moveaxis/M@MT', [m, mt]
 
 
-def p_nearmiss(rng: Any) -> tuple[str, list[Any]]:
+N_NEARMISS = 7
+
+
+def p_nearmiss(rng: Any, form: int | None = None) -> tuple[str, list[Any]]:
     """Operand pairs that look like a documented pattern (same classes) but are NOT one: the second
     operand belongs to a different object / different parameters.  Nothing has to be simplified here
     (C07 says nothing) but whatever reduce() does must preserve the map (C01)."""
-    form = int(rng.integers(7))
+    form = int(rng.integers(N_NEARMISS)) if form is None else form % N_NEARMISS
     s = _leaf(rng)
     if form == 0:      # pack_a @ pack_b.T with different masks
         a, b = gen.a_pack(rng, s), gen.a_pack(rng, s)
@@ -412,5 +415,7 @@ def embed(rng: Any, segments: list[list[Any]], n_left: int, n_mid: int, n_right:
         st = ops[pos].out_structure() if pos < len(ops) else ops[-1].in_structure()
         k = float(pick(rng, [-2, -1, -0.5, 0.5, 2, 4, 0.25]))
         values.append(k)
-        ops.insert(pos, HomothetyOperator(jnp.asarray(k, dtype=gen.data_dtype(st)), st))
+        dt = gen.data_dtype(st)
+        # scalar factors held as JAX arrays or as NumPy 0-d arrays (both are accepted scalar values)
+        ops.insert(pos, HomothetyOperator(np.asarray(k, dtype=dt) if rng.integers(2) else jnp.asarray(k, dtype=dt), st))
     return ops, values
